@@ -53,6 +53,16 @@ THEOREMS = [
     "Verif.C17.refine_span_sorted",
     "Verif.C17.gaussian_within_span",
     "Verif.C17.removeInRect_sublist",
+    # deepening round D
+    "Verif.C17.applyOp_preserves_wf",
+    "Verif.C17.runProg_preserves_wf",
+    "Verif.C17.runProg_no_new_nodes",
+    "Verif.C17.split_merge_roundtrip",
+    "Verif.C17.interpolate_idempotent",
+    "Verif.C17.refine_refine_span",
+    "Verif.C17.filter_filter",
+    "Verif.C17.filter_idempotent",
+    "Verif.C17.removeInRect_spec",
 ]
 RULE = (
     "corpus (F4: one single-node track, three delimiters; F8: kbp-calibrated and uncalibrated kymograph saved with "
@@ -480,6 +490,16 @@ def _impl(case, partial):
             return [errname(e)]
         st = B.group_state(r)
         return [with_aux(enc_times_md(st), {"state": state_json(st), "orig": state_json(prep["state0"])})]
+    if kind == "refine2":
+        # composition: refining the refined tracks once more (refine_refine_span)
+        prep = prepare(case)
+        try:
+            r1 = lk.refine_tracks_centroid(prep["group"], track_width=case["width"], bias_correction=case["bias"])
+            r2 = lk.refine_tracks_centroid(r1, track_width=case["width"], bias_correction=case["bias"])
+        except Exception as e:
+            return [errname(e)]
+        st1, st2 = B.group_state(r1), B.group_state(r2)
+        return [with_aux(enc_times_md(st2), {"state": state_json(st2), "once": state_json(st1), "orig": state_json(prep["state0"])})]
     if kind == "gauss":
         prep = prepare(case)
         g = prep["group"]
@@ -557,6 +577,8 @@ def ops(case):
         return [f"c17.prog {ky} {enc_group(prep['state0'])} " + " ".join(toks)]
     if kind == "refine":
         return ["c17.refine " + enc_group(prep["state0"])]
+    if kind == "refine2":
+        return ["c17.refine2 " + enc_group(prep["state0"])]
     if kind == "gauss":
         kymotrack, _ = _kt()
         skip = "T" if case["strategy"] == "skip" else "F"
@@ -605,7 +627,7 @@ def agree(case, i, ia, ma):
             ea, _, ga = ia.partition(" ")
             em, _, gm = ma.partition(" ")
             return ea == em and same_group(dec_group(ga), dec_group(gm), TOL_EDIT, md_exact=False, md_tol=md_tol)
-        if kind in ("refine", "gauss"):
+        if kind in ("refine", "refine2", "gauss"):
             ta, mda = ia.split(" ")
             tm, mdm = ma.split(" ")
             if ta != tm:
@@ -668,6 +690,8 @@ def oracle(case, ia):
         return oracle_prog(case, ia)
     if kind == "refine":
         return oracle_refine(case, ia)
+    if kind == "refine2":
+        return oracle_refine2(case, ia)
     if kind == "gauss":
         return oracle_gauss(case, ia)
     return None
@@ -875,6 +899,21 @@ def oracle_prog(case, ia):
                     exp.append(tr)
             if err != "-" or len(post) != len(exp) or not all(same_track(x, y) for x, y in zip(post, exp)):
                 return where + f"remove_tracks_in_rect kept {len(post)} tracks, expected {len(exp)} untouched ones"
+    # whole program (runProg_preserves_wf / runProg_no_new_nodes): every track of every state is non-empty, has strictly
+    # increasing lines and one count per node; without interpolation every node of the final group is a node of the first
+    for n, st in enumerate(states):
+        for tr in st:
+            if not tr["t"] or any(x >= y for x, y in zip(tr["t"], tr["t"][1:])) or (tr["counts"] is not None and len(tr["counts"]) != len(tr["t"])):
+                return f"well-formed: after {n} operations a track has lines {tr['t'][:12]} / {None if tr['counts'] is None else len(tr['counts'])} counts"
+    if states and all(op[0] != "i" for op in case["ops"]):
+        first = {}
+        for tr in states[0]:
+            for t, c in zip(tr["t"], tr["c"]):
+                first.setdefault(t, []).append(c)
+        for tr in states[-1]:
+            for t, c in zip(tr["t"], tr["c"]):
+                if not any(abs(c - c0) <= 1e-15 * (abs(c0) + 1) for c0 in first.get(t, [])):
+                    return f"conserve: node (t={t}, c={c!r}) of the final group is not a node of the group the program started from"
     return None
 
 
@@ -910,6 +949,22 @@ def oracle_refine(case, ia):
             for t, c in zip(r["t"], r["c"]):
                 if abs(c - truth[t]) > spot_tol(case):
                     return f"sub-pixel: centroid refinement of track {k} line {t}: {c!r}, true centre {truth[t]!r} (tolerance {spot_tol(case)} pixel{edge_note(case)})"
+    return None
+
+
+def oracle_refine2(case, ia):
+    """refining refined tracks: same number of tracks, the same lines as after one refinement, minimum durations kept"""
+    a, aux = split_aux(ia[0])
+    if a.endswith("Error"):
+        return f"centroid refinement of refined tracks raised {a}"
+    once, twice, orig = aux["once"], aux["state"], aux["orig"]
+    if len(twice) != len(once) or len(once) != len(orig):
+        return f"track-count: refining twice returned {len(twice)} tracks, once {len(once)}, given {len(orig)}"
+    for k, (o, r1, r2) in enumerate(zip(orig, once, twice)):
+        if r2["t"] != r1["t"] or r2["t"] != list(range(o["t"][0], o["t"][-1] + 1)):
+            return f"span: track {k} refined twice has lines {r2['t'][:15]}, refined once {r1['t'][:15]}"
+        if r2["md"] != o["md"] or r2["counts"] is None or len(r2["counts"]) != len(r2["t"]):
+            return f"metadata: track {k} refined twice: minimum duration {r2['md']!r} (was {o['md']!r}) / counts"
     return None
 
 
@@ -967,7 +1022,7 @@ def nontrivial(case, ia):
     if kind == "prog":
         st = aux.get("states", [])
         return any(x != y for x, y in zip(st, st[1:])) or "Error" in a
-    if kind in ("refine", "gauss"):
+    if kind in ("refine", "refine2", "gauss"):
         return bool(case.get("edge")) or len(case["tracks"]) >= 2 or any(len(tr["t"]) < tr["t"][-1] - tr["t"][0] + 1 for tr in case["tracks"])
     return False
 
@@ -983,7 +1038,7 @@ def tags(case, r):
 
 def shrink(case):
     kind = case["kind"]
-    if kind in ("rt", "refine", "gauss", "prog"):
+    if kind in ("rt", "refine", "refine2", "gauss", "prog"):
         trs = case.get("tracks", [])
         refs = set()
         for op in case.get("ops", []):
@@ -1175,6 +1230,17 @@ def cases(tier, rng):
         for pat in (0, 1):
             c = [float(b) if pat == 0 else [1.5, 0.25, 4.75, 3.0, 3.5, 0.0][b] for b in t]
             yield small_group_case([["i"]], tracks=[{"t": t, "c": c, "md": 0.5 if pat else None, "hw": 1 if pat else None}])
+    # compositions: split then reconnect the parts (every inner node), interpolate twice, filter twice
+    for i, n in enumerate(lens):
+        for node in range(1, n):
+            for minlen in (0, 1):
+                yield small_group_case([["s", i, node, minlen], ["m", 2, node - 1, 3, 0]])
+                yield small_group_case([["s", i, node, minlen], ["m", 3, 0, 2, node - 1]])
+    for bits in (0b101, 0b100101, 0b110001, 0b1, 0b111):
+        t = [b for b in range(6) if bits >> b & 1]
+        yield small_group_case([["i"], ["i"]], tracks=[{"t": t, "c": [[1.5, 0.25, 4.75, 3.0, 3.5, 0.0][b] for b in t], "md": 0.5, "hw": 1}])
+    for (L1, D1), (L2, D2) in itertools.product([(0, 0), (2, 0.25), (3, 0.125), (1, 0.5), (4, 0.3)], repeat=2):
+        yield small_group_case([["f", L1, D1], ["f", L2, D2]])
     # rectangles on the grid of the small group (bounds half-way between nodes / lines)
     for t0, t1 in ((-0.0625, 0.3125), (0.3125, 0.8125), (0.5625, 0.0625), (-1.0, 2.0)):
         for x0, x1 in ((0.05, 0.27), (0.27, 0.6), (0.6, 0.05), (-1.0, 1.0)):
@@ -1280,6 +1346,12 @@ def cases(tier, rng):
     for i in range(N):
         sub = r.fork(i)
         yield gen_refine_case(sub, i, "refine")
+    N = 15 if quick else 100
+    r = rng.fork("c17-refine2")
+    for i in range(N):
+        c = gen_refine_case(r.fork(i), i, "refine")
+        c["kind"], c["assert_truth"] = "refine2", False
+        yield c
     N = 40 if quick else 200
     r = rng.fork("c17-gauss")
     for i in range(N):
@@ -1530,7 +1602,7 @@ def extra_coverage(results):
                     bump(mdk, "representable")
                 else:
                     bump(mdk, "not-representable-with-6-decimals")
-        if c["kind"] in ("refine", "gauss"):
+        if c["kind"] in ("refine", "refine2", "gauss"):
             where = {"lo": "first-pixel-edge", "hi": "last-pixel-edge"}.get(c.get("edge"), "interior")
             bump(refk, f"{c['kind']}:{where}:{'centre-asserted' if c.get('assert_truth') else 'lines-only'}")
             if c["kind"] == "gauss" and c.get("edge") == "lo":
